@@ -10,7 +10,9 @@
 // Every read of a damaged file runs in a forked child (batches; a batch that dies is re-run
 // case by case with one grandchild per read), so a crash of the real code is an observation
 // ("st":"crash"), never the end of the trace.  Big allocations throw bad_alloc
-// (replaced operator new: the same resource limit with and without the sanitizer;
+// (the recorder is built with -fopenmp like an application using the library's parallel loops and run with
+// OMP_NUM_THREADS=1, so that no thread exists at fork time; replaced operator new: the same resource limit
+// with and without the sanitizer;
 // VERIF_ALLOC_MB, default 16 MiB - every valid file here is far smaller).
 #include <new>
 #include <cstdlib>
@@ -145,6 +147,10 @@ Out read_bin_size(const std::string &path) {
 }
 
 // ------------------------------------------------------------------ process isolation
+// In a child a call of std::terminate (an exception that cannot leave an OpenMP parallel region, a
+// noexcept violation, ...) has to kill the child with SIGABRT: it is an observation ("crash"), and it
+// must not print into the stdout the child shares with the recorder.
+static void child_terminate_is_abort() { std::set_terminate([]() { signal(SIGABRT, SIG_DFL); abort(); }); }
 static std::string crash_json(const std::string &why) {
     Out o; o.st = "crash"; o.why = why; o.ptr.assign(1, 0); return o.json();
 }
@@ -169,6 +175,7 @@ static std::string in_child(const std::function<std::string()> &f, const std::fu
     if (pid == 0) {
         close(fd[0]);
         int ef = open(errfile.c_str(), O_WRONLY | O_CREAT | O_TRUNC, 0600); if (ef >= 0) { dup2(ef, 2); close(ef); }
+        child_terminate_is_abort();
         alarm(g_san ? 4 * seconds : seconds);
         std::string s = f();
         size_t off = 0; while (off < s.size()) { ssize_t w = write(fd[1], s.data() + off, s.size() - off); if (w <= 0) break; off += w; }
@@ -202,6 +209,7 @@ static void drive(int N, const std::function<std::string(int, bool)> &run) {
         if (pid == 0) {
             close(fd[0]);
             int ef = open(P("stderr-batch.txt").c_str(), O_WRONLY | O_CREAT | O_TRUNC, 0600); if (ef >= 0) { dup2(ef, 2); close(ef); }
+            child_terminate_is_abort();
             for (int j = idx; j < end; ++j) {
                 alarm(g_san ? 20 : 5);
                 std::string s = run(j, false) + "\n";
